@@ -1352,11 +1352,47 @@ func runC03ErrorBodyCompression(c *Ctx) {
 		headerKeysOf := func(v ssa.Value, at ssa.Instruction) map[string]bool {
 			out := map[string]bool{}
 			for _, l := range StructFieldOriginsAt(v, comprF, at) {
-				if l.Kind == "call" && IsCallTo(l.Call, "(net/http.Header).Get", "(net/http.Header).Values") {
+				if l.Kind != "call" {
+					continue
+				}
+				if IsCallTo(l.Call, "(net/http.Header).Get", "(net/http.Header).Values") {
 					if k, ok := ConstString(l.Call.Common().Args[1]); ok {
 						out[textproto.CanonicalMIMEHeaderKey(k)] = true
 					}
+					continue
 				}
+				// a read-and-delete helper of the shipped packages, key passed as a constant
+				// (refactoring B28_r1: takeHeader(headers, "Content-Encoding"))
+				g := l.Call.Common().StaticCallee()
+				if g == nil || !p.inScope(g) || len(g.Blocks) == 0 {
+					continue
+				}
+				ForEachInstr(g, func(in ssa.Instruction) {
+					ret, isRet := in.(*ssa.Return)
+					if !isRet {
+						return
+					}
+					rv := ReturnValues(ret)
+					if l.Index >= len(rv) {
+						return
+					}
+					for _, l2 := range Origins(rv[l.Index]) {
+						if l2.Kind != "call" || !IsCallTo(l2.Call, "(net/http.Header).Get", "(net/http.Header).Values") {
+							continue
+						}
+						karg := l2.Call.Common().Args[1]
+						if prm, isPrm := strip(karg).(*ssa.Parameter); isPrm {
+							for i, q := range g.Params {
+								if q == prm && i < len(l.Call.Common().Args) {
+									karg = l.Call.Common().Args[i]
+								}
+							}
+						}
+						if k, ok := ConstString(karg); ok {
+							out[textproto.CanonicalMIMEHeaderKey(k)] = true
+						}
+					}
+				})
 			}
 			return out
 		}
